@@ -351,13 +351,20 @@ class Index:
 # decorator uses
 # ------------------------------------------------------------------------------------------------
 def hidden_may_be_none(ix, cls, hidden):
-    """does some method of the class (or of an ancestor) assign `self.<hidden> = None`?"""
+    """does some method of the class (or of an ancestor) leave something else than a ValueNode in `self.<hidden>`
+    (None, a list, nothing at all)?  Then `node = getattr(self, hidden); node.value = value` raises AttributeError."""
     for c in ix.mro(cls):
         ci = ix.classes.get(c)
         if not ci:
             continue
         for n in ast.walk(ci["node"]):
-            if isinstance(n, ast.Assign) and isinstance(n.value, ast.Constant) and n.value.value is None:
+            # self.<hidden> = None / [] / {} (a data-block input keeps a list of nodes there), or del self.<hidden>
+            if isinstance(n, ast.Assign) and (isinstance(n.value, (ast.List, ast.Dict)) or (
+                    isinstance(n.value, ast.Constant) and n.value.value is None)):
+                for t in n.targets:
+                    if isinstance(t, ast.Attribute) and t.attr == hidden and _is_name(t.value, "self"):
+                        return True
+            if isinstance(n, ast.Delete):
                 for t in n.targets:
                     if isinstance(t, ast.Attribute) and t.attr == hidden and _is_name(t.value, "self"):
                         return True
